@@ -124,6 +124,12 @@ M = [
       old="        let (value, overflow) = self.overflowing_neg();\n        ConstCtOption::new(value, overflow.not())",
       new="        let (value, _overflow) = self.overflowing_neg();\n        ConstCtOption::some(value)",
       expect="|int::neg::<impl int::Int<_>>::checked_neg"),
+ dict(name="int_add_assign_wrapping", prop="C15", file="src/int/add.rs",
+      old="__FROM_PATCH__", new="", expect="c15.mode|int::add::<impl core::ops::AddAssign<&int::Int<_>> for int::Int<_>>::add_assign", patch="/verif/seeded/C04c/patch.diff"),
+ dict(name="int_add_assign_wrapping_c04", prop="C04", file="src/int/add.rs",
+      old="__FROM_PATCH__", new="", expect="c04.mode|int::add::<impl core::ops::AddAssign<&int::Int<_>> for int::Int<_>>::add_assign", patch="/verif/seeded/C04c/patch.diff"),
+ dict(name="boxed_random_bits_rounded_guard", prop="C19", file="src/uint/boxed/rand.rs",
+      old="__FROM_PATCH__", new="", expect="c19.bitguard|uint::boxed::rand", patch="/verif/seeded/C19b/patch.diff"),
  # --- C19
  dict(name="random_mod_core_polarity", prop="C19", file="src/uint/rand.rs",
       old="        if n.ct_lt(modulus).into() {\n            break;", new="        if !bool::from(n.ct_lt(modulus)) {\n            break;",
